@@ -568,6 +568,8 @@ var standingAssumptions = []string{
 	"all storage fields of a handler are views of one abstract store (ghost maps)",
 	"error sentinels, constant string slices and fields declared 'wiring' are read from the current source and assumed immutable; a scan of every store instruction in the repository checks this on each run",
 	"functions marked trusted, and clauses written 'assume', are not proved (listed in trusted_base when used)",
+	"the request, responder and session objects an application passes to the provider are its own, not objects a store holds (preconditions !shared[...] of the token-endpoint handlers)",
+	"history lemmas (functions verifHistory* in verif_history.go, build tag verif, never called): proved from the handler contracts for every sequence of the listed operations, assuming that a newly generated code/token signature has never been stored before and that a new request's id is not the id of an existing grant; the environment interface verifEnv is unconstrained otherwise",
 	"a non-nil interface holding a nil pointer is identified with a nil interface; slices are immutable values and sub-slices do not alias their parent; termination, panics other than the swept index/map/nil checks and memory exhaustion are not verified",
 }
 
